@@ -522,3 +522,41 @@ HEADERS["C15"] = ("From CppUVerif Require Import lib.CSem lib.CMem lib.CMemOps.\
                   "NULL, Some bytes = a new block with those (arbitrary) initial bytes, whose number must be the size asked for; the request is "
                   "recorded as CMalloc size answered; PlatformSpecificMemCpy / PlatformSpecificMemset are mem_copy / mem_set of lib/CMemOps.v *)\n"
                   "Inductive hcev := COutOfMemoryOn | CMalloc (size answered : Z).\n")
+
+# ------------------------------------------------------------------ C08: the expectation list (MockExpectedCallsList): counting, searching, adding, pruning
+MEL = "src/CppUTestExt/MockExpectedCallsList.cpp"
+_G08L = [["evs", "list lev"], ["answers", "list Z"]]
+_L = "src_mlist_"
+_C08Q0 = ["isOutOfOrder", "isFulfilled", "isMatchingActualCallAndFinalized", "isMatchingActualCall", "canMatchActualCalls",
+          "areParametersMatchingActualCall", "getActualCallsFulfilled"]
+_C08Q1 = ["relatesTo", "hasInputParameterWithName", "hasOutputParameterWithName", "hasInputParameter", "hasOutputParameter", "relatesToObject"]
+_C08L = {"addExpectedCall": {"fn": _L + "addExpectedCall", "method": True}, "pruneEmptyNodeFromList": {"fn": _L + "pruneEmptyNodeFromList", "method": True}}
+_C08L.update({q: {"event": 'LAsk "%s" {r} {v}' % q, "recv": True, "oracle": "answers"} for q in _C08Q0})
+_C08L.update({q: {"event": 'LAskArg "%s" {r} {0} {v}' % q, "recv": True, "args": [0], "oracle": "answers"} for q in _C08Q1})
+_C08L.update({"resetActualCallMatchingState": {"event": 'LTell "resetActualCallMatchingState" {r}', "recv": True},
+              "wasPassedToObject": {"event": 'LTell "wasPassedToObject" {r}', "recv": True},
+              "inputParameterWasPassed": {"event": 'LTellArg "inputParameterWasPassed" {r} {0}', "recv": True, "args": [0]},
+              "outputParameterWasPassed": {"event": 'LTellArg "outputParameterWasPassed" {r} {0}', "recv": True, "args": [0]}})
+_C08M = ["pruneEmptyNodeFromList", "addExpectedCall", "hasCallsOutOfOrder", "size", "isEmpty", "amountOfActualCallsFulfilledFor",
+         "amountOfUnfulfilledExpectations", "hasFinalizedMatchingExpectations", "hasUnfulfilledExpectations", "hasExpectationWithName",
+         "addPotentiallyMatchingExpectations", "addExpectationsRelatedTo", "addExpectations", "onlyKeepExpectationsRelatedTo",
+         "onlyKeepOutOfOrderExpectations", "onlyKeepUnmatchingExpectations", "onlyKeepExpectationsWithInputParameterName",
+         "onlyKeepExpectationsWithOutputParameterName", "onlyKeepExpectationsWithInputParameter", "onlyKeepExpectationsWithOutputParameter",
+         "onlyKeepExpectationsOnObject", "removeFirstFinalizedMatchingExpectation", "getFirstMatchingExpectation",
+         "removeFirstMatchingExpectation", "deleteAllExpectationsAndClearList", "resetActualCallMatchingState", "wasPassedToObject",
+         "parameterWasPassed", "outputParameterWasPassed", "hasUnmatchingExpectationsBecauseOfMissingParameters"]
+HEAP_RECORDS["C08L"] = [["MockExpectedCallsListNode", MEL], ["MockExpectedCallsList", MEL, "own"]]
+HEAP_GROUPS["C08L"] = [dict(file=MEL, name="MockExpectedCallsList::" + n, coq=_L + n, calls=_C08L, ghosts=_G08L,
+                            opaque_classes=["SimpleString", "MockNamedValue"], new_event="LNew {p}", delete_event="LDelete {p}",
+                            delete_opaque_event="LDeleteCall {p}", **{"class": "MockExpectedCallsList"}) for n in _C08M]
+HEAP_HEADERS["C08L"] = ("From Coq Require Import String.\nFrom CppUVerif Require Import lib.CSem lib.CMem lib.CHeap.\nLocal Open Scope Z_scope.\n"
+                        "(* translated by tools/cxx2heap.py: the expectation list of the mocking engine, MockExpectedCallsList (every member except the "
+                        "constructor, the destructor and the three ...ToString reports). A node is a heap block (expectedCall_, next_); an expectation "
+                        "(a pointer to MockCheckedExpectedCall) is an opaque integer that identifies it (0 = NULL), a name / a named value / an object pointer "
+                        "likewise. Every question the list asks an expectation is answered by the oracle stream `answers` and recorded, with the "
+                        "expectation asked, the argument and the answer, in the ghost events LAsk / LAskArg; what the list tells an expectation is the "
+                        "event LTell / LTellArg; new / delete of a node are LNew / LDelete (the node constructor's initialisers are read from the source: "
+                        "expectedCall_ := the argument, next_ := NULL); delete of an expectation is LDeleteCall. The list's own virtual members "
+                        "addExpectedCall and pruneEmptyNodeFromList are called directly (no class of the repository overrides them) *)\n"
+                        "Inductive lev := LAsk (q : string) (e : Z) (ans : Z) | LAskArg (q : string) (e : Z) (arg : Z) (ans : Z) | LTell (what : string) (e : Z) | "
+                        "LTellArg (what : string) (e : Z) (arg : Z) | LNew (p : hptr) | LDelete (p : hptr) | LDeleteCall (e : Z).\n")
